@@ -121,6 +121,12 @@ func driveResource(t tuple, a api, variant int, decoy string) (o outcome, resW, 
 	if !resW.isNil {
 		ropts = append(ropts, resource.WithWritableFields(fm(resW)))
 	}
+	if (variant/7)%3 == 0 {
+		// a resource-level comparer only decides what subscribers are told: under the coarsest one (everything is
+		// equivalent) a write is stored and returned exactly as without it
+		ropts = append(ropts, resource.WithEquivalence(resource.ComparerFunc(func(x, y proto.Message) bool { return x != nil && y != nil })))
+		o.how += "; resource has an all-equivalent comparer"
+	}
 	var wopts []resource.WriteOption
 	switch {
 	case t.M.isNil:
